@@ -155,6 +155,22 @@ Proof. exact gamma_mean_one. Qed.
 Theorem branch_length_is_expected_substitutions : forall (R : Type) (o : fld_ops R), fld_laws o -> forall (n : nat) (p : nat -> R) (Q : fmat R) (w r : list R) (t : R), calibrated o n p Q -> suml o (map (fun wr : R * R => fmul o (fst wr) (snd wr)) (combine w r)) = fone o -> suml o (map (fun wr : R * R => fmul o (fst wr) (fmul o (fmul o (snd wr) t) (fopp o (sumn o n (fun i : nat => fmul o (p i) (Q i i)))))) (combine w r)) = t.
 Proof. exact mixture_expected_rate. Qed.
 
+(** x / Σx sums to one *)
+Theorem normalised_vector_sums_to_one : forall (R : Type) (o : fld_ops R), fld_laws o -> forall raw : list R, suml o raw <> fzero o -> suml o (normalise o raw) = fone o.
+Proof. exact normalise_sum_one. Qed.
+
+(** MonomerProbModel.calc_word_probs: Σ word_probs = 1 over the model's own states (sense codons, motif subsets) *)
+Theorem word_probs_sum_to_one_monomer : forall (R : Type) (o : fld_ops R), fld_laws o -> forall (words : list (list nat)) (mon : list R), suml o (map (fun w : list nat => prodl o (map (vget o mon) w)) words) <> fzero o -> suml o (monomer_word_probs o words mon) = fone o.
+Proof. exact monomer_word_probs_sum_one. Qed.
+
+(** PosnSpecificMonomerProbModel.calc_word_probs: Σ word_probs = 1 over the model's own states *)
+Theorem word_probs_sum_to_one_monomers : forall (R : Type) (o : fld_ops R), fld_laws o -> forall (words : list (list nat)) (mons : list (list R)), suml o (map (prod_pos o mons) words) <> fzero o -> suml o (posn_word_probs o words mons) = fone o.
+Proof. exact posn_word_probs_sum_one. Qed.
+
+(** PosnSpecificMonomerProbModel: π_i M_ij = π_j M_ji (so reversible_model gives zero rows, balance, stationarity, calibration for it) *)
+Theorem balanced_monomers : forall (R : Type) (o : fld_ops R), fld_laws o -> forall (len : nat) (words : list (list nat)) (mons : list (list R)), same_length len words -> balanced o (length words) (vget o (posn_word_probs o words mons)) (get o (mpm_posn o (length words) words (inst_mask words) mons)).
+Proof. exact posn_balanced. Qed.
+
 (** Full statements that are NOT proved here (they need the limit of the
     series, i.e. real analysis of the matrix exponential): kept visible as
     definitions, covered by the numerical correspondence only.
